@@ -365,6 +365,29 @@ def _reconf_unit(lib):
     return Unit("C02", name, prove=prove, replay=_replay_chain, replay_once=True, scope="shape:NKFFT (2,1,1) then (1,2,1), 6 R-vectors, 2 bands", expect_min=2)
 
 
+def _reconf_klist_unit(lib):
+    name = "an object configured for a shifted grid and then for an explicit k-list: no trace of the old shift: first lib=%s" % lib
+
+    def prove(U):
+        NP, FFT, RV, g = build(U)
+        Rs = R_SETS["A"]
+
+        def body():
+            rv = RV(lattice=LATT, shifts_left_red=None, iRvec=Rs)
+            X = sym_cplx_array("X", (len(Rs), NW, NW))
+            dK1 = rnp.array([sreal("dK0"), sreal("dK1"), sreal("dK2")], dtype=object)
+            rv.set_fft_R_to_k(NK=(2, 1, 1), num_wann=NW, fftlib=lib, dK=dK1)
+            rv.R_to_k(rv.apply_expdK(X.copy()), der=0, hermitian=False)
+            kl = sym_real_array("k", (2, 3))
+            rv.set_fft_R_to_k(NK=None, num_wann=NW, k_list=kl)
+            out = rv.R_to_k(rv.apply_expdK(X.copy()), der=0, hermitian=False)
+            kforms = [[{"k_%d_%d" % (i, j): Fraction(1)} for j in range(3)] for i in range(2)]
+            _check_out(U, name, out, _spec_der(X, Rs, None, 0), Rs, kforms, 0, False)
+        U.run(body, check_feasible=False)
+        _externals(U)
+    return Unit("C02", name, prove=prove, replay=_replay_chain, replay_once=True, scope="shape:NKFFT (2,1,1) then 2 symbolic k-points, 6 R-vectors, 2 bands", expect_min=2)
+
+
 def _replay_alias(mv, ob):
     """installed code: the first result must survive later calls, for every library"""
     from wannierberri.fourier.rvectors import Rvectors
@@ -638,6 +661,11 @@ def _register():
         _frame_unit(lib_)
     _reconf_unit("numpy")
     _reconf_unit("fftw")
+    # library names are accepted in any letter case: the same transform as for the lower-case name
+    for lib_ in ("FFTW", "NumPy", "Slow"):
+        _grid_unit((2, 1, 1), "A", lib_, 0, False, False)
+    _reconf_klist_unit("numpy")
+    _reconf_klist_unit("slow")
     _klist_unit("A", 0, True, False)
     _klist_unit("B", 1, False, True)
     _klist_unit("A", 2, True, True, nk=1)
